@@ -1,9 +1,129 @@
-(* C20 - The client file-system layer maps entries to fids faithfully, leaking none. *)
+(* C20 - The client file-system layer maps entries to fids faithfully, leaking none.
+   Only statements, each closed by [exact lemma], with Print Assumptions.
+
+   Vocabulary (Model/Cfs.v, Proofs/CfsProofs.v):
+     do_op msize next o ans   one operation of the layer with fs.nextfid = next; ans is the
+                              answer of the session to the call it issues; yields
+                              (call issued, result for the caller, nextfid afterwards)
+     step / run               the same composed with the caller's bookkeeping s_live (entries
+                              obtained from Attach/Walk and not yet clunked or removed; the entry
+                              Create returns supersedes the one it was created from) and with the
+                              abstract server's table s_srv (attach binds on success, walk binds
+                              newfid iff the answer has as many qids as names were sent, clunk and
+                              remove unbind)
+     expected_call next o     the session call the property asks for (corresponding call, the
+                              entry's own fid, fresh fid for attach root / walk target)
+   All theorems quantify over every operation sequence and EVERY sequence of session answers. *)
 From Coq Require Import List NArith ZArith Bool.
 From P9 Require Import Base.Res Model.Path Model.Cfs Proofs.CfsProofs.
 Import ListNotations.
+Open Scope N_scope.
 
-Theorem C20_forward_clunk : forall msize next e ans,
-  fst (fst (do_op msize next (OClunk e) ans)) = Some (SClunk (c_fid e)).
-Proof. exact clunk_forward. Qed.
-Print Assumptions C20_forward_clunk.
+(* Live entries have pairwise distinct fids, none of them NOFID.
+   The unbounded statement
+       forall msize ops, NoDup (map c_fid (s_live (run msize sys0 ops))) /\ Forall (fun e => c_fid e <> NOFID) ...
+   is false for the code as it is: newFid is a uint32 counter that wraps after 2^32 allocations
+   (the 2^32-1st allocation returns NOFID itself, the next ones repeat fids that may still be live).
+   Proved: the statement for every history with fewer than 2^32-1 allocations (an Attach, or a
+   Walk whose path is valid, allocates - also when it then fails). *)
+Theorem C20_distinct_partial : forall msize ops,
+  N.of_nat (n_allocs ops) < 2 ^ 32 - 1 ->
+  NoDup (map c_fid (s_live (run msize sys0 ops)))
+  /\ Forall (fun e => c_fid e <> NOFID) (s_live (run msize sys0 ops)).
+Proof. exact distinct. Qed.
+Print Assumptions C20_distinct_partial.
+
+(* each operation issues exactly the corresponding session call, on the entry's own fid *)
+Theorem C20_forward : forall msize next o ans,
+  call_of (do_op msize next o ans) = expected_call next o.
+Proof. exact forward. Qed.
+Print Assumptions C20_forward.
+
+Theorem C20_forward_own_fid : forall msize next o ans e c,
+  op_ent o = Some e -> call_of (do_op msize next o ans) = Some c -> call_fid c = c_fid e.
+Proof. exact forward_own_fid. Qed.
+Print Assumptions C20_forward_own_fid.
+
+(* a walk the session completed (as many qids as normalised names) is reported as success, with an
+   entry on the new fid whose qid is the last qid (the entry's own qid for a walk of no names) *)
+Theorem C20_walk_ok : forall msize next e names steps bsp qids,
+  normalize_path names = (steps, bsp) -> (0 <= bsp)%Z -> length qids = length steps ->
+  do_op msize next (OWalk e names) (AWalk qids)
+  = (Some (SWalk (c_fid e) (new_fid next) steps),
+     CWalk qids {| c_fid := new_fid next; c_qid := last qids (c_qid e) |},
+     new_fid next).
+Proof. exact walk_ok. Qed.
+Print Assumptions C20_walk_ok.
+
+(* a failed or partial walk returns no entry and binds no fid on the server *)
+Theorem C20_walk_fail : forall msize st e names steps bsp ans,
+  normalize_path names = (steps, bsp) -> (0 <= bsp)%Z ->
+  (ans = AErr \/ exists qids, ans = AWalk qids /\ length qids <> length steps) ->
+  let '(st', c, r) := step msize st (OWalk e names) ans in
+  c = Some (SWalk (c_fid e) (new_fid (s_next st)) steps)
+  /\ res_entry r = None
+  /\ (r = CErr \/ exists qids, ans = AWalk qids /\ r = CPartial qids)
+  /\ s_srv st' = s_srv st
+  /\ s_live st' = s_live st.
+Proof. exact walk_fail. Qed.
+Print Assumptions C20_walk_fail.
+
+(* at every point of every history the server's table is exactly the fids of the entries the caller holds *)
+Theorem C20_table : forall msize ops,
+  s_srv (run msize sys0 ops) = map c_fid (s_live (run msize sys0 ops)).
+Proof. exact table. Qed.
+Print Assumptions C20_table.
+
+(* so once every entry obtained has been clunked or removed the server holds no fid *)
+Theorem C20_no_leak : forall msize ops,
+  s_live (run msize sys0 ops) = [] -> s_srv (run msize sys0 ops) = [].
+Proof. exact no_leak. Qed.
+Print Assumptions C20_no_leak.
+
+(* ---- non-vacuity ---- *)
+Definition b_dir1 : bstr := [100; 105; 114; 49].    (* "dir1" *)
+Definition b_x : bstr := [120].
+Definition qd : qid := (128, 0, 7).
+Definition root : cEnt := {| c_fid := 1; c_qid := (128, 0, 1) |}.
+
+(* the premises of C20_walk_ok: Walk("dir1", ".") normalises to one step (the D12 input) *)
+Example C20_ex_walk_ok_premises :
+  normalize_path [b_dir1; [DOT]] = ([b_dir1], 0%Z) /\ length [qd] = length [b_dir1].
+Proof. split; reflexivity. Qed.
+Example C20_ex_walk_ok :
+  do_op 65536 1 (OWalk root [b_dir1; [DOT]]) (AWalk [qd])
+  = (Some (SWalk 1 2 [b_dir1]), CWalk [qd] {| c_fid := 2; c_qid := qd |}, 2).
+Proof. reflexivity. Qed.
+(* and Walk("x", "..") to none: the server clones the fid, the layer reports success *)
+Example C20_ex_walk_clone :
+  do_op 65536 1 (OWalk root [b_x; [DOT; DOT]]) (AWalk [])
+  = (Some (SWalk 1 2 []), CWalk [] {| c_fid := 2; c_qid := (128, 0, 1) |}, 2).
+Proof. reflexivity. Qed.
+
+(* the premises of C20_walk_fail: a partial answer *)
+Example C20_ex_walk_fail_premises :
+  normalize_path [b_dir1; b_x] = ([b_dir1; b_x], 0%Z) /\ length [qd] <> length [b_dir1; b_x].
+Proof. split; [reflexivity|discriminate]. Qed.
+
+(* a history in which entries are obtained, a walk fails after taking a fid, a file is created,
+   and everything is let go: distinct fids on the way, empty table at the end *)
+Definition ex_ops1 : list (op * sres) :=
+  [ (OAttach [] [] AfNil, AQid (128, 0, 1));
+    (OWalk root [b_dir1; [DOT]], AWalk [qd]);
+    (OWalk root [b_dir1; b_x], AWalk [qd]);
+    (OWalk root [b_x; [DOT; DOT]], AWalk []);
+    (OCreate {| c_fid := 4; c_qid := (128, 0, 1) |} b_x 420 1, AOpen (0, 0, 9) 0) ].
+Definition ex_ops2 : list (op * sres) :=
+  [ (OClunk root, AUnit); (ORemove {| c_fid := 2; c_qid := qd |}, AErr);
+    (OClunk {| c_fid := 4; c_qid := (0, 0, 9) |}, AUnit) ].
+
+Example C20_ex_history_mid :
+  let st := run 65536 sys0 ex_ops1 in
+  s_next st = 4 /\ map c_fid (s_live st) = [4; 2; 1] /\ s_srv st = [4; 2; 1]
+  /\ s_live st = [ {| c_fid := 4; c_qid := (0, 0, 9) |}; {| c_fid := 2; c_qid := qd |}; root ].
+Proof. vm_compute. repeat split; reflexivity. Qed.
+
+Example C20_ex_history_end :
+  let st := run 65536 sys0 (ex_ops1 ++ ex_ops2) in
+  s_live st = [] /\ s_srv st = [] /\ (N.of_nat (n_allocs (ex_ops1 ++ ex_ops2)) < 2 ^ 32 - 1).
+Proof. vm_compute. repeat split; reflexivity. Qed.
